@@ -99,6 +99,149 @@ pub fn check_symbol(ns: &'static Namespace<'static>, g: &Graph, s: &str) -> Vec<
     out
 }
 
+/// def name -> def row (later rows with the same name win, as in `graph_of`)
+pub type DefMap = std::collections::BTreeMap<String, Dict>;
+
+pub fn defmap_of(grid: &Grid) -> DefMap {
+    let mut m = DefMap::new();
+    for row in &grid.rows {
+        if let Some(Value::Symbol(def)) = row.get("def") {
+            m.insert(def.value.clone(), row.clone());
+        }
+    }
+    m
+}
+
+/// the symbol names in the list stored under `key` (nothing when the tag is absent or not a list)
+fn sym_list(d: &Dict, key: &str) -> Vec<String> {
+    match d.get(key) {
+        Some(Value::List(l)) => l.iter().filter_map(|v| if let Value::Symbol(s) = v { Some(s.value.clone()) } else { None }).collect(),
+        _ => vec![],
+    }
+}
+
+/// What `associations(parent, assoc)` has to return, read off the defs grid and the graph:
+/// nothing unless `assoc` is a def that lists `association` in its `is`; the defined symbols of the parent's own
+/// `assoc` list (in order) for a stored association; for one computed from its reciprocal, every def whose
+/// reciprocal list names a def in the parent's inheritance. Returns (names, order_is_defined).
+fn assoc_oracle(defs: &DefMap, g: &Graph, parent: &str, assoc: &str) -> (Vec<String>, bool) {
+    let Some(adef) = defs.get(assoc) else { return (vec![], true) };
+    if !sym_list(adef, "is").iter().any(|s| s == "association") {
+        return (vec![], true);
+    }
+    if !adef.contains_key("computedFromReciprocal") {
+        let l = defs.get(parent).map(|d| sym_list(d, assoc)).unwrap_or_default();
+        return (l.into_iter().filter(|s| g.defined(s)).collect(), true);
+    }
+    let Some(Value::Symbol(rec)) = adef.get("reciprocalOf") else { return (vec![], true) };
+    if !g.defined(&rec.value) {
+        return (vec![], true);
+    }
+    let inh = g.inheritance(parent);
+    let mut out: Vec<String> = defs.iter().filter(|(_, d)| sym_list(d, &rec.value).iter().any(|t| g.defined(t) && inh.contains(t))).map(|(n, _)| n.clone()).collect();
+    out.sort();
+    (out, false)
+}
+
+const ASSOCS: [&str; 8] = ["is", "tagOn", "tags", "relA", "relB", "association", "zzNoAssoc", "marker"];
+
+/// associations / is / tag_on / tags / implementation for one symbol
+pub fn check_assoc(ns: &'static Namespace<'static>, defs: &DefMap, g: &Graph, s: &str) -> Vec<Mismatch> {
+    let sym = Symbol::from(s);
+    let mut out = Vec::new();
+    let list = |v: Vec<&Dict>| -> Vec<String> { v.into_iter().map(|d| d.def_name().clone()).collect() };
+    for a in ASSOCS {
+        let (want, ordered) = assoc_oracle(defs, g, s, a);
+        let mut got = list(ns.associations(&sym, &Symbol::from(a)));
+        if !ordered {
+            got.sort();
+        }
+        if got != want {
+            out.push(Mismatch { query: format!("associations:{a}"), detail: format!("associations({s},{a}) = {:?}, the defs grid says {:?}", truncate(&format!("{got:?}"), 300), truncate(&format!("{want:?}"), 300)) });
+        }
+    }
+    for (name, got, a) in [("is", list(ns.is(&sym)), "is"), ("tag_on", list(ns.tag_on(&sym)), "tagOn")] {
+        let (want, _) = assoc_oracle(defs, g, s, a);
+        if got != want {
+            out.push(Mismatch { query: name.into(), detail: format!("{name}({s}) = {got:?}, the defs grid says {want:?}") });
+        }
+    }
+    {
+        let (want, _) = assoc_oracle(defs, g, s, "tags");
+        let mut got = list(ns.tags(&sym));
+        got.sort();
+        if got != want {
+            out.push(Mismatch { query: "tags".into(), detail: format!("tags({s}) = {}, the defs grid says {}", truncate(&format!("{got:?}"), 300), truncate(&format!("{want:?}"), 300)) });
+        }
+    }
+    // implementation: the def itself / a conjunct's defined parts (feature keys excluded), then every mandatory
+    // transitive supertype of those
+    {
+        let base: Vec<String> = s.split('-').filter(|p| g.defined(p) && !p.contains(':')).map(|p| p.to_string()).collect();
+        let mut want: Set = base.iter().cloned().collect();
+        let mut sup = Set::new();
+        for b in &base {
+            sup.extend(g.all_supertypes(b));
+        }
+        for x in sup {
+            if defs.get(&x).is_some_and(|d| matches!(d.get("mandatory"), Some(Value::Marker))) {
+                want.insert(x);
+            }
+        }
+        let got: Set = list(ns.implementation(&sym)).into_iter().collect();
+        if let Some(m) = cmp_sets("implementation", s, got, want) {
+            out.push(m);
+        }
+    }
+    out
+}
+
+/// protos(parent): for every tag of the parent that is a def with `children`, each child prototype plus the
+/// parent's non-null tags that fit one of the def's `childrenFlatten` symbols; duplicates removed.
+pub fn check_protos(ns: &'static Namespace<'static>, defs: &DefMap, g: &Graph, parent: &Dict) -> Vec<Mismatch> {
+    let mut want: std::collections::BTreeSet<String> = Default::default();
+    for name in parent.keys() {
+        let Some(def) = defs.get(name) else { continue };
+        let children: Vec<Dict> = match def.get("children") {
+            Some(Value::Str(text)) => text
+                .value
+                .split('\n')
+                .map(|l| l.trim())
+                .filter(|l| !l.is_empty() && !l.starts_with("//"))
+                .filter_map(|l| match libhaystack::encoding::zinc::decode::from_str(&format!("{{{l}}}")) {
+                    Ok(Value::Dict(d)) if !d.is_empty() => Some(d),
+                    _ => None,
+                })
+                .collect(),
+            Some(Value::List(l)) => l.iter().filter_map(|v| if let Value::Dict(d) = v { Some(d.clone()) } else { None }).collect(),
+            _ => continue,
+        };
+        let mut flat = Dict::new();
+        for fsym in sym_list(def, "childrenFlatten") {
+            for (k, v) in parent.iter() {
+                if g.fits(k, &fsym) && !v.is_null() {
+                    flat.insert(k.clone(), v.clone());
+                }
+            }
+        }
+        for mut c in children {
+            for (k, v) in flat.iter() {
+                c.insert(k.clone(), v.clone());
+            }
+            want.insert(crate::bridge::observe(&Value::make_dict(c)).show());
+        }
+    }
+    let got_list = ns.protos(parent);
+    let got: std::collections::BTreeSet<String> = got_list.iter().map(|d| crate::bridge::observe(&Value::make_dict(d.clone())).show()).collect();
+    let mut out = Vec::new();
+    if got != want {
+        out.push(Mismatch { query: "protos".into(), detail: format!("protos of {:?}: {} prototypes, expected {}; e.g. extra {:?} missing {:?}", parent.keys().collect::<Vec<_>>(), got.len(), want.len(), got.difference(&want).next().map(|s| truncate(s, 200)), want.difference(&got).next().map(|s| truncate(s, 200))) });
+    } else if got_list.len() != got.len() {
+        out.push(Mismatch { query: "protos".into(), detail: format!("protos of {:?} holds duplicates ({} entries, {} distinct)", parent.keys().collect::<Vec<_>>(), got_list.len(), got.len()) });
+    }
+    out
+}
+
 pub fn check_reflect(ns: &'static Namespace<'static>, g: &Graph, rec: &Dict, probes: &[String]) -> Vec<Mismatch> {
     let mut out = Vec::new();
     let tags: Vec<(String, bool)> = rec.iter().map(|(k, v)| (k.clone(), v.is_marker())).collect();
@@ -121,6 +264,16 @@ pub fn check_reflect(ns: &'static Namespace<'static>, g: &Graph, rec: &Dict, pro
         } else if specific.len() == 1 && got_name != ***specific[0] {
             out.push(Mismatch { query: "entity_type".into(), detail: format!("record {:?}: entity type {got_name:?}, the only most specific reflected entity def is {:?}", rec.keys().collect::<Vec<_>>(), specific[0]) });
         }
+    }
+    // def_of_dict wants the record to outlive the namespace borrow: hand it a heap copy and take it back afterwards
+    let def_of = {
+        let raw = Box::into_raw(Box::new(rec.clone()));
+        let d = ns.def_of_dict(unsafe { &*raw });
+        drop(unsafe { Box::from_raw(raw) });
+        d
+    };
+    if crate::bridge::observe(&Value::make_dict(def_of)) != crate::bridge::observe(&Value::make_dict(refl.entity_type.clone())) {
+        out.push(Mismatch { query: "def_of_dict".into(), detail: format!("def_of_dict of {:?} is not the reflection's entity type", rec.keys().collect::<Vec<_>>()) });
     }
     // probes: the given symbols plus the record's own tag names (defined or not) and their conjunct spellings
     let mut all_probes: Vec<String> = probes.to_vec();
@@ -238,6 +391,59 @@ pub fn random_taxonomy(rng: &mut Rng) -> (Grid, Vec<String>) {
         rows.push(d);
         names.push("odd".into());
     }
+    // associations (stored and computed from a reciprocal), child prototypes and flattened tags
+    if rng.coin() {
+        let plain: Vec<String> = names.clone();
+        let pick_syms = |rng: &mut Rng| -> Value {
+            Value::make_list((0..1 + rng.below(3)).map(|_| if rng.chance(1, 8) { sym("undefined1") } else { sym(&plain[rng.below(plain.len())]) }).collect())
+        };
+        for row in rows.iter_mut() {
+            if rng.chance(1, 3) {
+                row.insert("tagOn".into(), pick_syms(rng));
+            }
+            if rng.chance(1, 4) {
+                row.insert("relA".into(), pick_syms(rng));
+            }
+            if rng.chance(1, 6) {
+                let kids = if rng.coin() {
+                    let a = &plain[rng.below(plain.len())];
+                    let b = &plain[rng.below(plain.len())];
+                    let (a, b) = (a.replace(['-', ':'], "_"), b.replace(['-', ':'], "_"));
+                    Value::make_str(&format!("{a} {b}\n// a comment\n\n  {b} dis:\"x\"\n{a} {b}\nnot zinc {{"))
+                } else {
+                    let mut c = Dict::new();
+                    c.insert(plain[rng.below(plain.len())].replace(['-', ':'], "_"), Value::Marker);
+                    Value::make_list(vec![Value::make_dict(c.clone()), Value::make_number(1.0), Value::make_dict(c)])
+                };
+                row.insert("children".into(), kids);
+                if rng.chance(2, 3) {
+                    row.insert("childrenFlatten".into(), pick_syms(rng));
+                }
+            }
+        }
+        rows.push(mk("association", vec!["marker".into()], None));
+        rows.push(mk("is", vec!["association".into()], None));
+        rows.push(mk("tagOn", vec!["association".into()], None));
+        let mut tags = mk("tags", vec!["association".into()], Some(("computedFromReciprocal", Value::Marker)));
+        tags.insert("reciprocalOf".into(), sym("tagOn"));
+        rows.push(tags);
+        // relA is sometimes not an association at all; relB's reciprocal is sometimes undefined or absent
+        rows.push(mk("relA", vec![if rng.chance(1, 5) { "marker".into() } else { "association".into() }], None));
+        let mut rel_b = mk("relB", vec!["association".into()], Some(("computedFromReciprocal", Value::Marker)));
+        match rng.below(5) {
+            0 => {}
+            1 => {
+                rel_b.insert("reciprocalOf".into(), sym("undefined2"));
+            }
+            _ => {
+                rel_b.insert("reciprocalOf".into(), sym("relA"));
+            }
+        }
+        rows.push(rel_b);
+        for n in ["association", "is", "tagOn", "tags", "relA", "relB"] {
+            names.push(n.into());
+        }
+    }
     rng.shuffle(&mut rows);
     (Grid::make_from_dicts(rows), names)
 }
@@ -270,6 +476,8 @@ pub fn run(ctx: &mut Ctx) {
     // ---- the real Project Haystack defs: exhaustive over symbols and ordered pairs ------------------
     if let Some(grid) = defs_grid() {
         let g = graph_of(&grid);
+        let defs = defmap_of(&grid);
+        let with_children: Vec<String> = defs.iter().filter(|(_, d)| d.contains_key("children")).map(|(n, _)| n.clone()).collect();
         let ns = leak_ns(grid).get();
         let syms: Vec<String> = g.is.keys().cloned().collect();
         ctx.note("real_defs_symbols", json!(syms.len()));
@@ -282,7 +490,11 @@ pub fn run(ctx: &mut Ctx) {
                 continue;
             }
             ctx.eval("real:symbol", crate::prng::hash_str(s), true);
-            match catch(|| check_symbol(ns, &g, s)) {
+            match catch(|| {
+                let mut ms = check_symbol(ns, &g, s);
+                ms.extend(check_assoc(ns, &defs, &g, s));
+                ms
+            }) {
                 Ok(ms) => report(ctx, "real", ms, json!({"symbol": s})),
                 Err(p) => ctx.violation(&format!("defs:real:{}", panic_sig(&p)), &p.msg, json!({"symbol": s})),
             }
@@ -328,7 +540,19 @@ pub fn run(ctx: &mut Ctx) {
                 }
                 let probes: Vec<String> = (0..6).map(|_| syms[rng.below(syms.len())].clone()).chain(inh[s].iter().take(3).cloned()).collect();
                 ctx.eval("real:reflect", crate::prng::hash_str(&format!("{:?}", rec.keys().collect::<Vec<_>>())), !rec.is_empty());
-                match catch(|| check_reflect(ns, &g, &rec, &probes)) {
+                // every other record also carries a tag whose def has child prototypes (and sometimes a Null tag)
+                if k % 2 == 1 && !with_children.is_empty() {
+                    rec.insert(with_children[rng.below(with_children.len())].clone(), Value::Marker);
+                    if rng.coin() {
+                        rec.insert(syms[rng.below(syms.len())].replace(['-', ':'], "_"), Value::Null);
+                    }
+                    ctx.stratum("real:protos-parent-with-children");
+                }
+                match catch(|| {
+                    let mut ms = check_reflect(ns, &g, &rec, &probes);
+                    ms.extend(check_protos(ns, &defs, &g, &rec));
+                    ms
+                }) {
                     Ok(ms) => report(ctx, "real", ms, json!({"record_tags": rec.keys().collect::<Vec<_>>()})),
                     Err(p) => ctx.violation(&format!("defs:real:reflect:{}", panic_sig(&p)), &p.msg, json!({})),
                 }
@@ -349,6 +573,10 @@ pub fn run(ctx: &mut Ctx) {
         let mut rng = ctx.case_rng("random-taxonomy", i);
         let (grid, names) = random_taxonomy(&mut rng);
         let g = graph_of(&grid);
+        let defs = defmap_of(&grid);
+        if defs.contains_key("association") {
+            ctx.stratum("random:taxonomy-with-associations");
+        }
         let fp = crate::prng::hash_str(&format!("{:?}", g.is));
         let grid_text = if ctx.wants_sample("random-taxonomy") { Some(format!("{:?}", g.is)) } else { None };
         let nsh = leak_ns(grid);
@@ -360,6 +588,7 @@ pub fn run(ctx: &mut Ctx) {
             let mut ms = Vec::new();
             for s in &syms {
                 ms.extend(check_symbol(ns, &g, s));
+                ms.extend(check_assoc(ns, &defs, &g, s));
             }
             for s in &syms {
                 for t in &syms {
@@ -373,6 +602,14 @@ pub fn run(ctx: &mut Ctx) {
                 let rec = random_record(&mut rng, &names);
                 let probes: Vec<String> = (0..5).map(|_| syms[rng.below(syms.len())].clone()).collect();
                 ms.extend(check_reflect(ns, &g, &rec, &probes));
+                ms.extend(check_protos(ns, &defs, &g, &rec));
+            }
+            // the core type table is a lookup by name
+            let core = ns.core_type_defs();
+            for (name, d) in [("marker", core.marker), ("na", core.na), ("bool", core.bool), ("number", core.number), ("str", core.str), ("dict", core.dict), ("grid", core.grid), ("ref", core.reference)] {
+                if g.defined(name) != !d.is_empty() || (g.defined(name) && d.def_name() != name) {
+                    ms.push(Mismatch { query: "core_type_defs".into(), detail: format!("core_type_defs().{name} is not the def named {name}") });
+                }
             }
             ms
         });
